@@ -492,6 +492,23 @@ def _standard_check(prop, tier, seed, replay=None):
                 machinery_errors.append("theorem %s depends on unlisted axioms: %s" % (t, bad))
     ctx.log("theorems=%d obligations=%d" % (len(theorems), obligations))
 
+    # 3b. thorough tier: independent re-check of the compiled closure with coqchk
+    coqchk_summary = None
+    if ok and prop.props_file and tier == "thorough" and not replay and not machinery_errors:
+        mod = "Verif." + prop.props_file[:-2].replace("/", ".")
+        with Lock("coq"):
+            rc, out = sh(["coqchk", "-silent", "-o", "-Q", COQ, "Verif", mod], cwd=COQ, timeout=3600)
+        m = re.search(r"\* Axioms:\s*(.*?)\n\s*\n", out, re.S)
+        coqchk_summary = {"rc": rc, "axioms": (m.group(1).strip() if m else "<unparsed>")}
+        ctx.log("coqchk rc=%d axioms=%s" % (rc, coqchk_summary["axioms"][:200]))
+        if rc != 0:
+            machinery_errors.append("coqchk failed:\n" + out[-3000:])
+        elif coqchk_summary["axioms"] != "<none>":
+            listed = [a.strip() for a in coqchk_summary["axioms"].split("\n") if a.strip()]
+            bad = [a for a in listed if not any(a.startswith(x) for x in prop.allowed_axioms)]
+            if bad:
+                machinery_errors.append("coqchk lists axioms that are not on the allow-list: %s" % bad)
+
     if machinery_errors:
         for e in machinery_errors:
             print("MACHINERY-ERROR:", e)
@@ -637,6 +654,8 @@ def _standard_check(prop, tier, seed, replay=None):
         "input_distribution": getattr(prop, "distribution", lambda cs: {})(list(cases.values())),
         "exhaustive": bool(getattr(prop, "exhaustive_tiers", ()) and tier in prop.exhaustive_tiers),
     }
+    if coqchk_summary is not None:
+        cov["coqchk"] = coqchk_summary
     write_evidence(ctx, cov, n_viol)
     for l in known_lines:
         print(l)
